@@ -546,13 +546,17 @@ pub fn run_ops(ops: &[Value]) -> GcRun {
 }
 
 fn gen_ops(rng: &mut Rng) -> Vec<Value> {
+    gen_ops_opt(rng, true)
+}
+
+fn gen_ops_opt(rng: &mut Rng, allow_bulk: bool) -> Vec<Value> {
     let len = 4 + rng.usize(57);
     let max_objects = 4 + rng.usize(13);
     let mut ops: Vec<Value> = Vec::new();
     let mut objects = 0usize;
     // one sequence in eight starts with a large population (crosses the mark bitmap's word
     // boundaries at 64, 128, ... managed objects), a third of it rooted
-    if rng.chance(1, 8) {
+    if rng.chance(1, 8) && allow_bulk {
         let n = 50 + rng.usize(160);
         for i in 0..n {
             match rng.below(3) {
@@ -645,8 +649,9 @@ fn gen_ops(rng: &mut Rng) -> Vec<Value> {
     ops
 }
 
+/// small universes only (Miri adjunct: two orders of magnitude slower than native)
 pub fn gen_ops_pub(rng: &mut Rng) -> Vec<Value> {
-    gen_ops(rng)
+    gen_ops_opt(rng, false)
 }
 
 pub fn spec_of(ops: &[Value]) -> Value {
